@@ -24,7 +24,7 @@ MIN_NONTRIVIAL = {"quick": 250, "thorough": 5000}
 
 
 def gen_cases(tier: str, seed: int) -> List[Dict[str, Any]]:
-    n = 400 if tier == "quick" else 8000
+    n = 800 if tier == "quick" else 16000
     cases = []
     for i in range(n):
         rng = rng_for(seed, PROPERTY, i)
